@@ -136,6 +136,34 @@ def divides_some(spec):
     return all(isinstance(r, list) and all(is_real(t) for t in r) for r in spec) and any(len(r) in (2, 3) for r in spec)
 
 
+
+def _REAL_CONVERTERS():
+    import fractions
+
+    import numpy as np
+
+    return [("numpy.float32", np.float32), ("numpy.float64", np.float64), ("numpy.int64-or-float32", lambda x: np.int64(x) if float(x).is_integer() else np.float32(x)),
+            ("fractions.Fraction", fractions.Fraction)]
+
+
+def _map_numbers(v, conv):
+    """the same nested specification with every number (bools excluded) converted by `conv`"""
+    if isinstance(v, bool) or v is None or isinstance(v, str):
+        return v
+    if isinstance(v, (list, tuple)):
+        return type(v)(_map_numbers(x, conv) for x in v)
+    return conv(v)
+
+
+def has_bool(v):
+    v = dec(v) if not isinstance(v, (list, tuple, bool, int, float, str, type(None))) else v
+    if isinstance(v, bool):
+        return True
+    if isinstance(v, (list, tuple)):
+        return any(has_bool(x) for x in v)
+    return False
+
+
 class ThresholdCorr(Corr):
     name = "set_thresholds"
     header = ("From Coq Require Import String List Bool QArith.\nFrom PE Require Import Base.CaseUtil Model.PyVal Model.Threshold.\n"
@@ -230,6 +258,15 @@ class ThresholdCorr(Corr):
                     r["again"] = {"ok": enc(set_thresholds(dec(enc(out)), n, nest))}
                 except (ThresholdError, TypeError) as e:
                     r["again"] = {"error": type(e).__name__}
+                # the same specification with its numbers carried by other real-number types (numpy scalars as array-derived
+                # configurations yield them, fractions): "non-numeric entries are rejected" -- these ARE numbers (numbers.Real)
+                r["other_real_types"] = {}
+                for tname, conv in _REAL_CONVERTERS():
+                    try:
+                        alt = set_thresholds(_map_numbers(spec, conv), n, nest)
+                        r["other_real_types"][tname] = {"ok": enc(_map_numbers(alt, float))}
+                    except (ThresholdError, TypeError) as e:
+                        r["other_real_types"][tname] = {"error": type(e).__name__}
                 res.append(r)
         return res
 
@@ -263,6 +300,11 @@ class ThresholdCorr(Corr):
                 # normalising a normalised value changes nothing
                 if n >= 1 and ("ok" not in o["again"] or not same(dec(o["again"]["ok"]), out)):
                     return f"{what} = {out!r} but normalising that again gives {o['again']}"
+                # numbers of any real type are numbers: the same specification is accepted with the same values
+                if not has_bool(case["spec"]):
+                    for tname, alt in o.get("other_real_types", {}).items():
+                        if "ok" not in alt or not same(dec(alt["ok"]), _map_numbers(out, float)):
+                            return f"{what} = {out!r} but with its numbers given as {tname} the result is {alt}"
             if has_tuple(case["spec"]):
                 continue  # tuples are outside the documented input types: only the two laws above
             want = documented(spec, n, nest)
